@@ -104,6 +104,32 @@ b("benign-C04-commaok-lookup", ["C04", "C02", "C14", "C12"], [(CACHE,
   "\t\td := c.devices[device]\n\t\tif d == nil {",
   "\t\td, found := c.devices[device]\n\t\tif !found {")], "comma-ok form of the same lookup")
 
+# ---------------------------------------------------------------- benign variants for the rules added after the seeded round
+b("benign-C20-setup-local-watcher", ["C20", "C11", "C12"], [(CACHE,
+  "\tw.watcher, err = fsnotify.NewWatcher()\n\tif err != nil {\n",
+  "\twatcher, err := fsnotify.NewWatcher()\n\tw.watcher = watcher\n\tif err != nil {\n")], "watcher created into a local first, stored unconditionally")
+b("benign-C20-setup-explicit-nil", ["C20", "C11", "C12"], [(CACHE,
+  "\tw.watcher, err = fsnotify.NewWatcher()\n\tif err != nil {\n",
+  "\tw.watcher = nil\n\twatcher, err := fsnotify.NewWatcher()\n\tif err == nil {\n\t\tw.watcher = watcher\n\t}\n\tif err != nil {\n")], "watcher reset to nil first, stored on success only")
+b("benign-C19-errs-local", ["C19"], [("cmd/cdi/cmd/root.go",
+  "\t\tif len(cdi.GetDefaultCache().GetErrors()) > 0 {\n",
+  "\t\tcache := cdi.GetDefaultCache()\n\t\tif errs := cache.GetErrors(); len(errs) != 0 {\n")], "cache and its errors held in locals, != 0 instead of > 0")
+b("benign-C13-mode-isdir", ["C13", "C01"], [(DIRS,
+  "\t\t\tif info.IsDir() {\n",
+  "\t\t\tif info.Mode().IsDir() {\n")], "directory test through the mode bits")
+b("benign-C02-new-edits", ["C02", "C14"], [(EDITS,
+  "\t\te.ContainerEdits = &cdi.ContainerEdits{}\n",
+  "\t\te.ContainerEdits = new(cdi.ContainerEdits)\n")], "new() instead of a composite literal")
+b("benign-C09-sanitizer-switch", ["C09", "C07", "C08"], [(SPEC,
+  "\t\tif (r >= 0x7f && r <= 0x9f) || r == 0xfffe || r == 0xffff {\n\t\t\tout = append(out, fmt.Sprintf(`\\u%04x`, r)...)\n\t\t} else {\n\t\t\tout = utf8.AppendRune(out, r)\n\t\t}\n",
+  "\t\tswitch {\n\t\tcase r >= 0x7f && r <= 0x9f, r >= 0xfffe && r <= 0xffff:\n\t\t\tout = append(out, fmt.Sprintf(`\\u%04x`, r)...)\n\t\tdefault:\n\t\t\tout = utf8.AppendRune(out, r)\n\t\t}\n")], "switch form of the same escaping")
+m("C09-sanitizer-wider", "C09", [(SPEC,
+  "\t\tif (r >= 0x7f && r <= 0x9f) || r == 0xfffe || r == 0xffff {",
+  "\t\tif r >= 0x7f {")], "escapes every non-ASCII rune and DEL with \\u%04x: for runes above U+FFFF that prints five hex digits, which reads back as a different string")
+b("benign-C04-empty-name-first", ["C04", "C02", "C14"], [(CACHE,
+  "\t\td := c.devices[device]\n\t\tif d == nil {",
+  "\t\tif device == \"\" {\n\t\t\tunresolved = append(unresolved, device)\n\t\t\tcontinue\n\t\t}\n\t\td := c.devices[device]\n\t\tif d == nil {")], "empty names classified as unresolved before the lookup: same result (no device has an empty name)")
+
 # ---------------------------------------------------------------- C02
 m("C02-set-in-loop", "C02", [(CACHE,
   "\tspecs := map[*Spec]struct{}{}\n\n\tfor _, device := range devices {\n",
@@ -585,9 +611,16 @@ m("C09-revert-D12", "C09", [(SPEC,
   "\t\tdata, err = json.Marshal(s.Spec)\n\t\tdata = escapeJSONForYAML(data)\n",
   "\t\tdata, err = json.Marshal(s.Spec)\n")], "revert of fix D12")
 m("C09-sanitizer-off-by-one", "C09", [(SPEC,
-  "\t\tif r >= 0x7f && r <= 0x9f {", "\t\tif r > 0x7f && r < 0x9f {")], "DEL and U+009F slip through the escaping")
+  "\t\tif (r >= 0x7f && r <= 0x9f) || r", "\t\tif (r > 0x7f && r < 0x9f) || r")], "DEL and U+009F slip through the escaping")
 m("C09-sanitizer-c1-only", "C09", [(SPEC,
-  "\t\tif r >= 0x7f && r <= 0x9f {", "\t\tif r >= 0x80 && r <= 0x9f {")], "DEL is no longer escaped")
+  "\t\tif (r >= 0x7f && r <= 0x9f) || r", "\t\tif (r >= 0x80 && r <= 0x9f) || r")], "DEL is no longer escaped")
+m("C09-revert-D13", "C09", [(SPEC,
+  "\t\tif (r >= 0x7f && r <= 0x9f) || r == 0xfffe || r == 0xffff {", "\t\tif r >= 0x7f && r <= 0x9f {")], "revert of fix D13: U+FFFE/U+FFFF written raw, refused by the reader")
+m("C09-sanitizer-ffff-only", "C09", [(SPEC,
+  "|| r == 0xfffe || r == 0xffff {", "|| r == 0xffff {")], "U+FFFE is no longer escaped")
+m("C09-sanitizer-ascii-fast-path", "C09", [(SPEC,
+  "\tout := make([]byte, 0, len(data))\n\tfor _, r := range string(data) {",
+  "\tif utf8.Valid(data) && len(data) < 64 {\n\t\treturn data\n\t}\n\tout := make([]byte, 0, len(data))\n\tfor _, r := range string(data) {")], "short documents returned unescaped")
 m("C09-tag-name-mismatch", "C09", [(CONFIG,
   "`json:\"hostPath,omitempty\"    yaml:\"hostPath,omitempty\"` // Added in v0.5.0",
   "`json:\"hostPath,omitempty\"    yaml:\"hostpath,omitempty\"` // Added in v0.5.0")], "DeviceNode.HostPath is hostPath in JSON but hostpath in YAML files")
